@@ -1739,7 +1739,7 @@ impl Part for Roundtrip {
         "roundtrip"
     }
     fn cases(&self, tier: Tier) -> u32 {
-        tier.pick(40_000, 300_000)
+        tier.pick(100_000, 400_000)
     }
     fn strategy(&self, _: Tier) -> BoxedStrategy<RtCase> {
         (query_strategy(), bytes(160), bytes(240), bytes(240)).prop_map(|(q, lex, lay1, lay2)| RtCase { q, lex, lay1, lay2 }).boxed()
@@ -2361,7 +2361,7 @@ impl Part for History {
         "history"
     }
     fn cases(&self, tier: Tier) -> u32 {
-        tier.pick(1_500, 30_000)
+        tier.pick(5_000, 40_000)
     }
     fn strategy(&self, _: Tier) -> BoxedStrategy<HistCase> {
         (query_strategy(), bytes(160), bytes(240), proptest::collection::vec((0u8..9, 0u8..8), 1..=12)).prop_map(|(q, lex, lay, hostile)| HistCase { q, lex, lay, hostile }).boxed()
